@@ -14,7 +14,7 @@ var S = wk.Schemes[1]
 // Corner points of a counter-clockwise square (x = lng, y = lat).
 var corner = []wk.LL{wk.G(0, 0), wk.G(0, 2), wk.G(2, 2), wk.G(2, 0)}
 
-func P(i int) b6.FeatureID { return S.P(i) }
+func P(i int) b6.FeatureID  { return S.P(i) }
 func Wy(i int) b6.FeatureID { return S.W(i) }
 func Ar(i int) b6.FeatureID { return S.A(i) }
 func Rl(i int) b6.FeatureID { return S.R(i) }
